@@ -4,6 +4,11 @@ import json, subprocess
 
 # id: (level, engine, technique, level text, level note, design ref)
 CHECKS = {
+ "C08": ("exploration", "space",
+         "complete enumeration of grid geometries x bands x per-cell query lattices, of all orders of overlapping grid lists, and of NTv2 tree shapes x file orders x byte orders, against a reference bilinear interpolator",
+         "30 generated Gravsoft geometries (2..5 rows/cols, three spacings, two origins incl. one next to the antimeridian) x 1, 2, 3 bands x 5 text layouts, decoded by the library's reader: every cell probed at 25 in-cell positions, 1e-9 deg either side of inner edges, 0.25/0.49 cells (margin) and 0.51/2 cells (outside) off every border and corner, with and without the half-cell margin: value = harness bilinear interpolation / linear continuation of the f32 node values (1e-12 relative), within the corner range inside cells, nodes reproduced, containment as documented; all orders of all non-empty subsets of three overlapping grids x null grid on a 0.3 deg lattice: first containing grid, then first within the margin, then zero shift; six NTv2 tree shapes (single root, child, grandchild, two children, two roots, two roots + child) x all file orders x little/big endian: bilinear value of the deepest containing sub-grid; gridshift (datum: added, arcsec->rad, lon/lat order; geoid: subtracted), deformation raw (mm/yr->m/yr, ENU->XYZ, time span), deflection (slopes in arcsec) on generated grids served by a harness Context; outside-all-grids and @null/@optional behaviour.",
+         "Trusts the harness encoders (Gravsoft text, NTv2 bytes) and interpolator. Points closer than 1e-9 deg to a grid border are not judged for containment.",
+         "DESIGN.md §3 C08"),
  "C10": ("exploration", "space",
          "complete enumeration of an operator table x directions x tuple classes x all 16 NaN masks, with a per-operator dependency matrix as oracle",
          "28 operators (plane projections incl. both laea aspects, merc/webmerc, cart both ways, static/rotated/dynamic helmert, molodensky, latitude, permtide, addone, unitconvert, gridshift on datum/geoid/NTv2 grids and grid lists, deformation, deflection, curvature, gravity) x supported directions: every inside tuple alone and in a set must be counted, finite in the worked-on elements and bit-identical elsewhere; each of the 15 non-empty NaN masks must give NaN in every output that depends on a NaN input (dependency matrix per operator and direction) and leave independent untouched elements bit-identical; tuples beyond the declared limits (TM strip, laea disc, grid coverage) must be NaN in the worked-on elements and uncounted, never unchanged or partly transformed; set count = sum of single counts <= len; one-way inverses report 0 and leave data untouched; null-grid pass-through; six pipelines with failing steps (count = min, failed tuples NaN, stack underflow).",
@@ -122,7 +127,7 @@ def main():
             "add_only": True,
         },
         "engines": [
-            {"name": "space", "path": "/verif/mc/src/engine.rs", "kind_free_text": "exhaustive mixed-radix product enumeration on 16 threads (par_range/decode)", "serves_properties": ["C01", "C05", "C06", "C07", "C10", "C11", "C13", "C14", "C16", "C19"]},
+            {"name": "space", "path": "/verif/mc/src/engine.rs", "kind_free_text": "exhaustive mixed-radix product enumeration on 16 threads (par_range/decode)", "serves_properties": ["C01", "C05", "C06", "C07", "C08", "C10", "C11", "C13", "C14", "C16", "C19"]},
             {"name": "explore", "path": "/verif/mc/src/props", "kind_free_text": "explicit-state / program-tree exploration of the real API against reference models written in Rust", "serves_properties": ["C02", "C03", "C04", "C12", "C17", "C18"]},
             {"name": "sched", "path": "/verif/mc/src/props/c18.rs", "kind_free_text": "shuttle DfsScheduler over real threads sharing Plain contexts and the process-wide grid cache; yield points from hook H4", "serves_properties": ["C18"]},
             {"name": "workers", "path": "/verif/mc/src/engine.rs", "kind_free_text": "worker subprocesses (2 MiB stack, 4 GiB address space, watchdog) for hang / overflow / abort detection", "serves_properties": ["C04"]},
